@@ -262,7 +262,7 @@ def t_find_header(prop, tier, seed):
             # the scan must look at exactly the windows of the first min(L,8192) bytes
             if fm is not None or nm is not None:
                 sl, n, x, _ = fm if fm is not None else nm
-                eng_count = z3.If(z3.UGE(sl.meta, n), sl.meta - n + 1, z3.BitVecVal(0, 64))
+                eng_count = pst.scan_count if getattr(pst, 'scan_count', None) is not None else z3.If(z3.UGE(sl.meta, n), sl.meta - n + 1, z3.BitVecVal(0, 64))
                 r, m = q.check(f'{mode}: scan window = first min(L,8192) bytes [{kind}]', pst.pc, z3.Or(eng_count != spec_count, sl.addr != base))
                 if r == z3.sat:
                     viol.append(fh_violation(m, mem, base, L, mode, 'verif', 'the scan does not cover exactly the first min(len, 8192) bytes', q, pst.pc, small))
@@ -699,7 +699,7 @@ TARGETS = [
     {'name': 'header_builder', 'props': ['C12'], 'fn': t_builder('multiboot2-header', 'C12'),
      'encodes': 'multiboot2_header::Builder::build (MIR) up to the new_boxed call; Multiboot2BasicHeader::new / calc_checksum',
      'bound': 'all 2^10 slot occupancies x both architectures when max_present >= 10, else as mbi_builder'},
-    {'name': 'find_header', 'props': ['C13'], 'fn': t_find_header,
+    {'name': 'find_header', 'props': ['C13', 'C08'], 'fn': t_find_header,
      'encodes': 'multiboot2_header::Multiboot2Header::find_header + its magic closure (dev and release MIR); Windows::position/next, slice indexing and get through their specifications',
      'bound': 'buffer address 8-aligned, length symbolic < 2^32, every byte symbolic; magic position = any window index of the first min(len, 8192) bytes; stored length all 2^32 values; counterexamples extracted for len <= 20000'},
     {'name': 'elf_sections', 'props': ['C19', 'C01', 'C05', 'C08'], 'fn': t_elf_sections,
